@@ -215,6 +215,18 @@ Proof.
   intros _. exact H.
 Qed.
 
+Lemma coalesce_tcp_psh mode pkt pktI gso seq psh it bufs off v6 it' bufs' :
+  coalesce_tcp mode pkt pktI gso seq psh it bufs off v6 = (Success, it', bufs') ->
+  it_psh it' = if is_prepend mode then it_psh it else (if psh then true else it_psh it).
+Proof.
+  unfold coalesce_tcp. destruct (tun_maxUint16 <? _); [discriminate|]. destruct mode; cbn [is_prepend].
+  1,2: destruct (no_room _ _ _); [discriminate|]; destruct (_ && _); [discriminate|];
+       destruct (negb (checksum_valid pkt _ _ _)); [discriminate|]; intros H; inversion H; reflexivity.
+  destruct (no_room _ _ _); [discriminate|]. destruct psh; [discriminate|].
+  destruct (_ && _); [discriminate|]. destruct (negb (checksum_valid pkt _ _ _)); [discriminate|].
+  intros H; inversion H; reflexivity.
+Qed.
+
 Lemma coalesce_tcp_iteminvalid mode pkt pktI gso seq psh it bufs off v6 it' bufs' :
   coalesce_tcp mode pkt pktI gso seq psh it bufs off v6 = (ItemInvalidCSum, it', bufs') -> it_merged it = 0.
 Proof.
@@ -380,7 +392,8 @@ Definition hdr_facts (tcp v6 : bool) (tcph : N) (p : list N) : Prop :=
 (* TCP only: the item's sequence number and the flags the candidate gate admits *)
 Definition tcp_facts (tcp : bool) (pkt : list N) (x : item) : Prop :=
   tcp = true -> it_seq x = be32 pkt (it_iph x + 4) /\
-                (byte_at pkt (it_iph x + 13) = 16 \/ byte_at pkt (it_iph x + 13) = 24).
+                (byte_at pkt (it_iph x + 13) = 16 \/ byte_at pkt (it_iph x + 13) = 24) /\
+                it_psh x = (byte_at pkt (it_iph x + 13) =? 24).
 Definition fresh_item (tcp : bool) (pkt : list N) (pktI : N) (v6 : bool) (x : item) : Prop :=
   it_idx x = pktI /\ it_merged x = 0 /\ it_v6 x = v6 /\ it_iph x = (if v6 then 40 else 20) /\
   (if tcp then 20 <= it_tcph x else it_tcph x = 0) /\
@@ -467,9 +480,10 @@ Proof.
         destruct (N.eqb_spec ((byte_at pkt 6 / 32) mod 2) 1); [discriminate|]. split; [lia|exact F3].
       - intros _. rewrite <- Hi. reflexivity. }
     assert (Htf : tcp_facts true pkt newit).
-    { intros _. cbn [newit it_seq it_iph]. split; [reflexivity|].
-      unfold FLAGS_OFF, tun_tcpFlagsOffset, ACK, PSH, tun_tcpFlagACK, tun_tcpFlagPSH in Hfl.
-      destruct (N.eqb_spec (byte_at pkt (iph + 13)) 16); [auto|]. destruct (N.eqb_spec (byte_at pkt (iph + 13)) (16 + 8)); [auto|discriminate]. }
+    { intros _. cbn [newit it_seq it_iph it_psh]. split; [reflexivity|].
+      unfold FLAGS_OFF, tun_tcpFlagsOffset, ACK, PSH, tun_tcpFlagACK, tun_tcpFlagPSH in *.
+      destruct (N.eqb_spec (byte_at pkt (iph + 13)) 16) as [E|E]; [rewrite E; split; [auto|reflexivity]|].
+      destruct (N.eqb_spec (byte_at pkt (iph + 13)) (16 + 8)) as [E2|E2]; [|discriminate]. change (16 + 8) with 24 in E2. rewrite E2. split; [auto|reflexivity]. }
     refine (conj _ (conj _ (conj _ (conj _ (conj _ (conj _ (conj _ (conj _ (conj _ (conj _ (conj _ _)))))))))));
       try reflexivity; try lia; try exact Hi; try exact Hhf; exact Htf. }
   destruct (tlookup key t) as [L|] eqn:Hlk.
@@ -942,7 +956,7 @@ Proof.
   - apply inv_init.
   - unfold loop_k in *. rewrite indices_S, fold_left_app in *. cbn [fold_left] in *. rewrite N.add_0_l in *.
     pose proof (err_sticky _ _ _ _ He) as He0. specialize (IH ltac:(lia) He0).
-    destruct (gro_step_spec udp off _ (N.of_nat k) (i_kt _ _ _ IH) (i_ku _ _ _ IH) He0 (inv_range _ _ _ ltac:(lia) IH) He) as [bz [Hz [_ Hs]]].
+    destruct (gro_step_spec udp off _ (N.of_nat k) (i_kt _ _ _ IH) (i_ku _ _ _ IH) He0 (inv_range inp k _ (Nat.lt_le_incl _ _ Hk) IH) He) as [bz [Hz [_ Hs]]].
     eapply inv_step; [lia|apply inv_zero; [exact IH|exact Hz]|exact Hs].
 Qed.
 
@@ -1348,11 +1362,17 @@ Proof.
       { destruct (N.ltb_spec (it_gso it) (it_gso new)); [reflexivity|lia]. }
       rewrite Hgs.
       assert (Hhl2 : it_iph it + it_tcph it <= len pkt) by (rewrite Hi, <- Ht; exact Hfl).
+      set (pkt' := if it_psh it then put_byte pkt (it_iph it + FLAGS_OFF) (N.lor (byte_at pkt (it_iph it + FLAGS_OFF)) PSH) else pkt).
+      assert (Lp : len pkt' = len pkt).
+      { unfold pkt'. destruct (it_psh it); [|reflexivity]. unfold put_byte. apply len_put_bytes. unfold FLAGS_OFF, tun_tcpFlagsOffset. cbn [len length N.of_nat]. lia. }
+      assert (Dp : drop (it_iph it + it_tcph it) pkt' = drop (it_iph it + it_tcph it) pkt).
+      { unfold pkt'. destruct (it_psh it); [|reflexivity]. unfold put_byte. apply drop_put_bytes; [|exact Hhl2].
+        unfold FLAGS_OFF, tun_tcpFlagsOffset. cbn [len length N.of_nat]. lia. }
       refine (conj _ (conj Hfg1 (conj Hiph (conj Hhd (conj Htc (conj _ (conj _ _))))))).
-      * rewrite len_app. lia.
+      * rewrite len_app, Lp. lia.
       * intros E. lia.
       * cbn [len length N.of_nat] in *. unfold len in *. cbn [length]. lia.
-      * rewrite drop_app_le by exact Hhl2. cbn [map]. unfold payload_of at 1. rewrite <- Hpk.
+      * rewrite drop_app_le by (rewrite Lp; exact Hhl2). rewrite Dp. cbn [map]. unfold payload_of at 1. rewrite <- Hpk.
         rewrite chunks_cons; [|exact Hfg1|rewrite len_drop, Hi, <- Ht; lia].
         f_equal. rewrite <- Hch.
         destruct (N.eq_dec (it_gso it) (it_gso new)) as [E|E]; [rewrite E; reflexivity|].
@@ -1734,7 +1754,7 @@ Proof.
 Qed.
 Lemma inv3_zero s bz : Inv3 s -> Inv3 (with_bufs s bz).
 Proof. intros [H1 H2]. constructor; [exact H1|]. intros tcp it Hin. apply (H2 tcp it). destruct tcp; exact Hin. Qed.
-Lemma allQ_zero inp off Q s bz : allQ inp off Q s -> hz (total s) (s_bufs s) bz -> allQ inp off Q (with_bufs s bz).
+Lemma allQ_zero Q s bz : allQ Q s -> hz (total s) (s_bufs s) bz -> allQ Q (with_bufs s bz).
 Proof.
   intros H Hz tcp it Hin. cbn [with_bufs s_bufs s_trace]. rewrite (proj1 (hz_pkt _ _ _ (it_idx it) Hz)). apply (H tcp it). destruct tcp; exact Hin.
 Qed.
@@ -1751,7 +1771,7 @@ Proof.
   - split; [apply inv_init|split; [apply inv2_init|apply inv3_init]].
   - unfold loop_k in *. rewrite indices_S, fold_left_app in *. cbn [fold_left] in *. rewrite N.add_0_l in *.
     pose proof (err_sticky _ _ _ _ He) as He0. destruct (IH ltac:(lia) He0) as [I [I2 I3]].
-    destruct (gro_step_spec udp off _ (N.of_nat k) (i_kt _ _ _ I) (i_ku _ _ _ I) He0 (inv_range _ _ _ ltac:(lia) I) He) as [bz [Hz [_ Hs]]].
+    destruct (gro_step_spec udp off _ (N.of_nat k) (i_kt _ _ _ I) (i_ku _ _ _ I) He0 (inv_range inp k _ (Nat.lt_le_incl _ _ Hk) I) He) as [bz [Hz [_ Hs]]].
     pose proof (inv_zero _ _ _ _ I Hz) as Iz. pose proof (inv2_zero _ _ _ I2 Hz) as I2z. pose proof (inv3_zero _ bz I3) as I3z.
     split; [eapply inv_step; [lia|exact Iz|exact Hs]|].
     split; [eapply inv2_step; [|exact Iz|exact I2z|exact Hs]; lia|eapply inv3_step; eauto].
@@ -2023,20 +2043,20 @@ Qed.
 (* item_ok plus: the packet in the buffer still has the classified header, and
    (when all capacities are within 65535 + 2*offset) at most 65535 bytes *)
 Definition item_ok2 (inp : list buf) (capsb : Prop) (tcp : bool) (it : item) (P : list N) (mem : list N) : Prop :=
-  item_ok inp tcp it P mem /\ hdr_facts tcp (it_v6 it) (it_tcph it) P /\ (capsb -> len P <= 65535).
+  item_ok inp tcp it P mem /\ hdr_facts tcp (it_v6 it) (it_tcph it) P /\ len P <= 65535.
 
 Lemma fresh_item_ok2 inp (capsb : Prop) tcp pkt k v6 new :
   fresh_item tcp pkt k v6 new -> pkt = b_pkt (get_buf inp k) -> item_ok2 inp capsb tcp new pkt [k].
 Proof.
   intros Hf Hp. split; [eapply fresh_item_ok; eauto|].
-  destruct Hf as [_ [_ [Hv [_ [_ [_ [_ [_ [Hmax [_ [Hh _]]]]]]]]]]]. rewrite Hv. split; [exact Hh|auto].
+  destruct Hf as [_ [_ [Hv [_ [_ [_ [_ [_ [Hmax [_ [Hh _]]]]]]]]]]]. rewrite Hv. split; [exact Hh|exact Hmax].
 Qed.
 
 Lemma no_room_false b off clen : no_room b off clen = false -> clen + 2 * off <= b_cap b.
 Proof. unfold no_room. intros H. apply N.ltb_ge in H. exact H. Qed.
 
 Lemma merge_item_ok2 inp off (capsb : Prop) tcp pkt k v6 p it it' bufs bufs' mem :
-  (capsb -> caps_ok off bufs) ->
+  True ->
   merged_ok tcp pkt k off v6 p it it' bufs bufs' ->
   pkt = b_pkt (get_buf inp k) -> b_pkt (get_buf bufs k) = pkt ->
   it_idx it <> k -> (N.to_nat (it_idx it) < length bufs)%nat ->
@@ -2055,6 +2075,7 @@ Proof.
   destruct tcp; unfold hl_of in *.
   - destruct Hm as [mode [Hp [Hmode [Hcan Hco]]]].
     destruct (coalesce_tcp_success _ _ _ _ _ _ _ _ _ _ _ _ Hco) as [[Sk [Sv [Si [Sip [St Sm]]]]] [Hb' [Hg' Hroom]]].
+    pose proof (coalesce_tcp_bound _ _ _ _ _ _ _ _ _ _ _ _ Hco) as Hbound. fold P in Hbound.
     rewrite Sv, St. destruct mode; [contradiction| |].
     + destruct (tcp_can_append_facts _ _ _ _ _ _ _ _ Hcan) as [Ht _].
       cbn [is_prepend] in *. rewrite Hb'. unfold tcp_merge_bufs. cbn [is_prepend].
@@ -2069,24 +2090,28 @@ Proof.
         intros q Hq Hq13. rewrite byte_at_app_l by lia. unfold head'. destruct (it_psh new); [|reflexivity].
         unfold put_byte. apply byte_at_put_bytes_other; [cbn [len length N.of_nat]; lia|].
         cbn [len length N.of_nat]. unfold fo, FLAGS_OFF, tun_tcpFlagsOffset. rewrite Hiph. destruct (it_v6 it); lia.
-      * intros Hcb. apply no_room_false in Hroom. fold P in Hroom. pose proof (HC Hcb (it_idx it)) as Hcap.
-        rewrite len_app, Hh1, len_drop. lia.
+      * rewrite len_app, Hh1, len_drop. rewrite <- Ht, <- Hi in *. lia.
     + destruct (tcp_can_prepend_facts _ _ _ _ _ _ _ _ Hcan) as [Ht _].
       cbn [is_prepend] in *. rewrite Hb'. unfold tcp_merge_bufs. cbn [is_prepend].
       rewrite get_set_buf_same by (rewrite set_buf_length; exact Hlt). cbn [with_pkt b_pkt]. fold P.
+      set (pkt' := if it_psh it then put_byte pkt (it_iph it + FLAGS_OFF) (N.lor (byte_at pkt (it_iph it + FLAGS_OFF)) PSH) else pkt).
+      assert (Hpl : it_iph it + it_tcph it <= len pkt) by (rewrite Hi, <- Ht; exact Hfl).
+      assert (Lp : len pkt' = len pkt).
+      { unfold pkt'. destruct (it_psh it); [|reflexivity]. unfold put_byte. apply len_put_bytes. unfold FLAGS_OFF, tun_tcpFlagsOffset. cbn [len length N.of_nat]. lia. }
       split.
       * rewrite Hv, <- Ht. eapply (hdr_facts_same _ _ _ (it_iph it + it_tcph it)); [| |exact Hfh]; [rewrite <- Hv, <- Hiph; lia|].
-        intros q Hq _. apply byte_at_app_l. rewrite Hi, <- Ht in Hq. lia.
-      * intros Hcb. apply no_room_false in Hroom. fold P in Hroom. pose proof (HC Hcb k) as Hcap.
-        rewrite len_app, len_drop. lia.
+        intros q Hq Hq13. rewrite byte_at_app_l by (rewrite Lp; lia). unfold pkt'. destruct (it_psh it); [|reflexivity].
+        unfold put_byte. apply byte_at_put_bytes_other; [unfold FLAGS_OFF, tun_tcpFlagsOffset; cbn [len length N.of_nat]; lia|].
+        cbn [len length N.of_nat]. unfold FLAGS_OFF, tun_tcpFlagsOffset. rewrite <- Hv, <- Hiph in Hq13. lia.
+      * rewrite len_app, Lp, len_drop. lia.
   - destruct Hm as [Hp [Hcan Hco]].
     destruct (coalesce_udp_success _ _ _ _ _ _ _ Hco) as [[Sk [Sv [Si [Sip [St Sm]]]]] [Hg' [Hb' Hroom]]].
+    pose proof (coalesce_udp_bound _ _ _ _ _ _ _ Hco) as Hbound. fold P in Hbound.
     rewrite Sv, St, Hb'. rewrite get_set_buf_same by exact Hlt. cbn [with_pkt b_pkt]. fold P. fold P in Hroom.
     split.
     + eapply (hdr_facts_same _ _ _ (it_iph it + UDPH)); [| |exact Hh]; [rewrite Hiph; unfold UDPH, tun_udphLen in *; destruct (it_v6 it); lia|].
       intros q Hq _. apply byte_at_app_l. lia.
-    + intros Hcb. apply no_room_false in Hroom. pose proof (HC Hcb (it_idx it)) as Hcap.
-      rewrite len_app, len_drop. lia.
+    + rewrite len_app, len_drop. lia.
 Qed.
 
 Lemma caps_set_buf off bufs x v : caps_ok off bufs -> b_cap v <= 65535 + 2 * off -> caps_ok off (set_buf bufs x v).
@@ -2119,24 +2144,19 @@ Proof.
 Qed.
 
 Lemma loop_inv_hdr udp off inp k (capsb : Prop) :
-  (capsb -> caps_ok off inp) ->
   (k <= length inp)%nat -> s_err (loop_k udp off inp k) = false ->
-  allQ (item_ok2 inp capsb) (loop_k udp off inp k) /\ (capsb -> caps_ok off (s_bufs (loop_k udp off inp k))).
+  allQ (item_ok2 inp capsb) (loop_k udp off inp k).
 Proof.
-  intros Hcaps. induction k as [|k IH]; intros Hk He.
-  - split; [|exact Hcaps]. intros tcp it H. destruct tcp; destruct H.
+  induction k as [|k IH]; intros Hk He.
+  - intros tcp it H. destruct tcp; destruct H.
   - pose proof (loop_inv_all udp off inp k ltac:(lia)) as Hall.
     unfold loop_k in *. rewrite indices_S, fold_left_app in *. cbn [fold_left] in *. rewrite N.add_0_l in *.
-    pose proof (err_sticky _ _ _ _ He) as He0. destruct (IH ltac:(lia) He0) as [IQ IC]. destruct (Hall He0) as [I [I2 _]].
-    assert (Hs : step_spec_core off (fold_left (gro_step udp off) (indices k 0) (init inp)) (N.of_nat k)
-                   (gro_step udp off (fold_left (gro_step udp off) (indices k 0) (init inp)) (N.of_nat k))).
-    { apply gro_step_spec; auto; [apply (i_kt _ _ _ I)|apply (i_ku _ _ _ I)]. }
-    split.
-    + eapply (allQ_step inp off (item_ok2 inp capsb) (fun bufs => capsb -> caps_ok off bufs)); eauto.
-      * intros. eapply fresh_item_ok2; eauto.
-      * intros. eapply merge_item_ok2; eauto.
-      * apply (i_nodup _ _ I2).
-    + intros Hc. eapply step_caps; eauto.
+    pose proof (err_sticky _ _ _ _ He) as He0. pose proof (IH ltac:(lia) He0) as IQ. destruct (Hall He0) as [I [I2 _]].
+    destruct (gro_step_spec udp off _ (N.of_nat k) (i_kt _ _ _ I) (i_ku _ _ _ I) He0 (inv_range inp k _ (Nat.lt_le_incl _ _ Hk) I) He) as [bz [Hz [_ Hs]]].
+    eapply (allQ_step inp off (item_ok2 inp capsb) (fun _ => True)); [| | |apply (inv_zero _ _ _ _ I Hz)|apply (i_nodup _ _ I2)|exact Logic.I|apply allQ_zero; [exact IQ|exact Hz]|exact Hs].
+    + intros. eapply fresh_item_ok2; eauto.
+    + intros. eapply merge_item_ok2; eauto.
+    + lia.
 Qed.
 
 (* ------------------- the accounted packet: untouched bytes, length fields *)
@@ -2221,27 +2241,25 @@ Proof.
     change (5 * 4) with 20. destruct (N.ltb_spec (len F) 20); [lia|]. reflexivity.
 Qed.
 
-(* ------------------- theorem: descriptor and length fields (F5 hypothesis) *)
-(* Under the capacity bound every coalesced buffer is at most 65535 bytes long and
+(* ------------------- theorem: descriptor and length fields *)
+(* Every coalesced buffer is at most 65535 bytes long (the 65535 guard) and
    carries a well-formed descriptor (flags, type, hdr_len, csum_start/offset,
    gso_size) and correct IP / UDP length fields. *)
 Theorem gro_descriptor_lengths_valid : forall (canUDP : bool) (offset : N) (bufs : list buf) (j : N),
-  (forall b, In b bufs -> b_cap b <= 65535 + 2 * offset) ->
   let s := handle_gro canUDP offset bufs in
   s_err s = false -> merged_into (s_trace s) j ->
   descriptor_ok (get_buf (s_bufs s) j) = true /\ lengths_ok (get_buf (s_bufs s) j) = true.
 Proof.
-  intros udp off inp j Hcaps s He. subst s. unfold handle_gro in *. rewrite gro_loop_is in *.
+  intros udp off inp j s He. subst s. unfold handle_gro in *. rewrite gro_loop_is in *.
   set (s0 := loop_k udp off inp (length inp)) in *.
   assert (He0 : s_err s0 = false) by (destruct (s_err s0) eqn:E; [cbn iota in He; congruence|reflexivity]).
   rewrite He0 in *. cbn [s_trace s_tw s_bufs]. intros Hmj.
   destruct (loop_inv_all udp off inp (length inp) (le_n _) He0) as [I [I2 I3]]. fold s0 in I, I2, I3.
-  destruct (loop_inv_hdr udp off inp (length inp) True (fun _ => caps_init off inp Hcaps) (le_n _) He0) as [IQ _]. fold s0 in IQ.
+  pose proof (loop_inv_hdr udp off inp (length inp) True (le_n _) He0) as IQ. fold s0 in IQ.
   destruct (i_cover _ I3 j Hmj) as [tcp [it [Hin Hidx]]].
   pose proof (sel_total_in _ _ _ Hin) as Hint.
   destruct (i_items _ _ _ I it Hint) as [Htw _].
   destruct (IQ tcp it Hin) as [[Hhl [Hg1 [Hiph [Hhd [Htc [Hmz [Hml Hch]]]]]]] [Hhf Hlen]].
-  specialize (Hlen Logic.I).
   destruct (i_bounds _ I3 tcp it Hin) as [Bg Bh].
   pose proof (members_length_merged _ _ Hmj) as Hlen2.
   rewrite Hidx in *.
@@ -2300,4 +2318,104 @@ Proof.
       destruct tcp; [reflexivity|]. cbn [N.eqb Pos.eqb]. rewrite B2, N.eqb_refl. reflexivity.
     + destruct B1 as [_ [_ [_ B4]]]. rewrite B4, N.eqb_refl. cbn [andb]. rewrite Hiph in *.
       destruct tcp; [reflexivity|]. cbn [N.eqb Pos.eqb]. rewrite B2, N.eqb_refl. reflexivity.
+Qed.
+
+(* ------------------------------- passthrough in full (after fix b918254) *)
+(* a written buffer nothing was merged into has a zero header already, or is still an item's
+   buffer (and then the accounting pass zeroes it) *)
+Definition pass_inv (s : state) : Prop :=
+  forall j, In j (s_tw s) -> ~ merged_into (s_trace s) j ->
+    b_hdr (get_buf (s_bufs s) j) = zero_vhdr \/ exists it, In it (total s) /\ it_idx it = j.
+
+Lemma pass_inv_step inp off k s s' :
+  (k < length inp)%nat -> Inv inp k s -> pass_inv s -> step_spec off s (N.of_nat k) s' -> pass_inv s'.
+Proof.
+  intros Hk I Hp [bz [Hz [Hd Hcore]]].
+  pose proof (inv_zero _ _ _ _ I Hz) as Iz.
+  destruct Hcore as [r [bufs' [tcp [v6 [Hkt [Hku [He [Htr [Htw [Hb [Hoth [PRE [L [SUF [L' [Esel [Hsubz Hm]]]]]]]]]]]]]]]]].
+  cbn [with_bufs s_bufs s_trace s_tw s_tcp s_udp] in *.
+  assert (Hlenz : length bz = length inp) by (rewrite (proj1 Hz); apply (i_len _ _ _ I)).
+  intros j Hj Hnm. rewrite Htw in Hj. apply in_app_or in Hj.
+  assert (Hnm0 : ~ merged_into (s_trace s) j) by (intros H; apply Hnm; rewrite Htr; apply merged_into_app; exact H).
+  destruct Hj as [Hj|Hj].
+  - (* an index written earlier *)
+    assert (Hjk : j <> N.of_nat k).
+    { rewrite (i_tw _ _ _ I) in Hj. apply tw_of_bound in Hj. rewrite (i_tr _ _ _ I) in Hj. lia. }
+    assert (Hzj : b_hdr (get_buf bz j) = zero_vhdr \/ exists y, In y (total s') /\ it_idx y = j).
+    { destruct (Hp j Hj Hnm0) as [H0|[x [Hx Ex]]].
+      - left. destruct (proj2 Hz j) as [E|[_ E]]; rewrite E; [exact H0|reflexivity].
+      - destruct (Hd x Hx) as [[y [Hy Ey]]|H0]; [right; exists y; split; [exact Hy|congruence]|left; rewrite <- Ex; exact H0]. }
+    destruct Hzj as [H0|Hy]; [left|right; exact Hy].
+    rewrite Hb. destruct r as [| |j0 p].
+    + destruct Hm as [-> _]. rewrite get_set_buf_other by exact Hjk. exact H0.
+    + destruct Hm as [-> _]. exact H0.
+    + destruct Hm as [n [it [it' [Hn [Hj0 [_ Hmo]]]]]].
+      assert (j <> it_idx it). { intros ->. apply Hnm. rewrite Htr, Hj0. exists p. apply in_or_app. right. left. reflexivity. }
+      rewrite (merged_ok_frame _ _ _ _ _ _ _ _ _ _ j Hmo) by auto. exact H0.
+  - (* the packet of this step *)
+    destruct r as [| |j0 p]; cbn [is_coal] in Hj; [| |destruct Hj].
+    + destruct Hj as [<-|[]]. left. rewrite Hb. destruct Hm as [-> _].
+      rewrite get_set_buf_same by (rewrite Hlenz; lia). reflexivity.
+    + destruct Hj as [<-|[]]. right. destruct Hm as [_ [new [Hf E']]]. exists new. split; [|apply Hf].
+      apply (sel_total_in tcp). rewrite E'. apply in_or_app. right. apply in_or_app. left. apply in_or_app. right. left. reflexivity.
+Qed.
+
+Lemma loop_pass_inv udp off inp k : (k <= length inp)%nat -> s_err (loop_k udp off inp k) = false -> pass_inv (loop_k udp off inp k).
+Proof.
+  induction k as [|k IH]; intros Hk He.
+  - intros j [].
+  - pose proof (loop_inv udp off inp k ltac:(lia)) as HI.
+    unfold loop_k in *. rewrite indices_S, fold_left_app in *. cbn [fold_left] in *. rewrite N.add_0_l in *.
+    pose proof (err_sticky _ _ _ _ He) as He0. specialize (IH ltac:(lia) He0). specialize (HI He0).
+    eapply pass_inv_step; [|exact HI|exact IH|]; [lia|].
+    apply gro_step_spec; auto; [apply (i_kt _ _ _ HI)|apply (i_ku _ _ _ HI)|apply (inv_range inp k _ (Nat.lt_le_incl _ _ Hk) HI)].
+Qed.
+
+Lemma account_items_zero tcp items : forall bufs j it,
+  In it items -> it_idx it = j -> (N.to_nat j < length bufs)%nat ->
+  (forall x, In x items -> it_idx x = j -> it_merged x = 0) ->
+  b_hdr (get_buf (fold_left (account_item tcp) items bufs) j) = zero_vhdr.
+Proof.
+  induction items as [|x items IH]; intros bufs j it Hin Hidx Hlt Hz; [destruct Hin|]. cbn [fold_left].
+  destruct Hin as [->|Hin].
+  - pose proof (account_items_pass tcp items (account_item tcp bufs it) j (fun y Hy => Hz y (or_intror Hy))) as [_ [_ Hh]].
+    assert (E : b_hdr (get_buf (account_item tcp bufs it) j) = zero_vhdr).
+    { unfold account_item. rewrite (Hz it (or_introl eq_refl) Hidx). cbn [N.ltb N.compare]. rewrite Hidx.
+      rewrite get_set_buf_same by exact Hlt. reflexivity. }
+    destruct Hh as [Hh|Hh]; [rewrite Hh; exact E|exact Hh].
+  - apply (IH _ j it Hin Hidx); [rewrite account_item_length; exact Hlt|]. intros y Hy. apply Hz. right. exact Hy.
+Qed.
+
+(* A written buffer nothing was merged into leaves with its packet unchanged and an all-zero virtio header. *)
+Theorem gro_passthrough : forall (canUDP : bool) (offset : N) (bufs : list buf) (j : N),
+  let s := handle_gro canUDP offset bufs in
+  s_err s = false -> In j (s_tw s) -> ~ merged_into (s_trace s) j ->
+  b_pkt (get_buf (s_bufs s) j) = b_pkt (get_buf bufs j) /\ b_hdr (get_buf (s_bufs s) j) = zero_vhdr.
+Proof.
+  intros udp off inp j s He Hj Hnm.
+  split; [apply (gro_passthrough_partial udp off inp j He Hj Hnm)|].
+  subst s. unfold handle_gro in *. rewrite gro_loop_is in *.
+  set (s0 := loop_k udp off inp (length inp)) in *.
+  assert (He0 : s_err s0 = false) by (destruct (s_err s0) eqn:E; [cbn iota in He; congruence|reflexivity]).
+  rewrite He0 in *. cbn [s_trace s_tw s_bufs] in *.
+  pose proof (loop_inv udp off inp (length inp) (le_n _) He0) as I. fold s0 in I.
+  pose proof (loop_pass_inv udp off inp (length inp) (le_n _) He0) as Hp. fold s0 in Hp.
+  assert (Hz : forall it, In it (total s0) -> it_idx it = j -> it_merged it = 0).
+  { intros it Hi E. destruct (i_items _ _ _ I it Hi) as [_ H]. destruct (N.eq_dec (it_merged it) 0) as [|Hne]; [assumption|].
+    exfalso. apply Hnm. rewrite <- E. apply H. lia. }
+  assert (Hjlt : (N.to_nat j < length (s_bufs s0))%nat).
+  { rewrite (i_tw _ _ _ I) in Hj. apply tw_of_bound in Hj. rewrite (i_tr _ _ _ I) in Hj. rewrite (i_len _ _ _ I). lia. }
+  rewrite !account_flat.
+  set (b1 := fold_left (account_item true) (all_items (s_tcp s0)) (s_bufs s0)).
+  assert (L1 : length b1 = length (s_bufs s0)) by apply fold_account_length.
+  pose proof (account_items_pass true (all_items (s_tcp s0)) (s_bufs s0) j (fun it Hi => Hz it (in_or_app _ _ _ (or_introl Hi)))) as R1. fold b1 in R1.
+  pose proof (account_items_pass false (all_items (s_udp s0)) b1 j (fun it Hi => Hz it (in_or_app _ _ _ (or_intror Hi)))) as R2.
+  destruct (Hp j Hj Hnm) as [H0|[it [Hit Eit]]].
+  - destruct R1 as [_ [_ R1]]. destruct R2 as [_ [_ R2]].
+    destruct R2 as [R2|R2]; [rewrite R2|exact R2]. destruct R1 as [R1|R1]; [rewrite R1; exact H0|exact R1].
+  - unfold total in Hit. apply in_app_or in Hit as [Hit|Hit].
+    + assert (E1 : b_hdr (get_buf b1 j) = zero_vhdr).
+      { apply (account_items_zero true _ _ j it Hit Eit Hjlt). intros x Hx. apply Hz. apply in_or_app. auto. }
+      destruct R2 as [_ [_ [R2|R2]]]; [rewrite R2; exact E1|exact R2].
+    + apply (account_items_zero false _ _ j it Hit Eit); [rewrite L1; exact Hjlt|]. intros x Hx. apply Hz. apply in_or_app. auto.
 Qed.
